@@ -98,6 +98,7 @@ pub fn main(args: &[String]) {
     let mut rng = Rng::new(seed ^ 0xc06);
     let mut rep = Report::new("(a) directive-free texts over the full lexical alphabet: clean stream (strings / escaped identifiers followed by a token) held to byte identity + origin(i) = (path, i); tainted stream (trailing trivia after a top-level string / escaped identifier) = known-finding class; malformed stream must be Ok-and-identical or Preprocess error only when an independent scanner finds an unterminated construct; (b) every successful run of a generated preprocessor program is re-fed: same text. non-trivial = accepted text of >= 8 bytes; distinct by text");
     let n = if thorough { 60000 } else { 6000 };
+    let mut plain_cases: Vec<String> = vec![];
     for i in 0..n {
         let stream = i % 4;
         let (text, _) = gen_text(&mut rng, stream == 1, stream == 3);
@@ -121,7 +122,9 @@ pub fn main(args: &[String]) {
         }
         match std::panic::catch_unwind(|| check_identity(&text)) {
             Err(e) => { rep.case(text.as_bytes(), true); rep.violation(&format!("panic: {}", util::panic_msg(e)), &text, ""); }
-            Ok(Ok(nt)) => { rep.case(text.as_bytes(), nt); if nt && text.len() < 60 { rep.sample(format!("{:?}", text)); } }
+            Ok(Ok(nt)) => { rep.case(text.as_bytes(), nt); if nt && text.len() < 60 { rep.sample(format!("{:?}", text)); }
+                // hypothesis of the Lean theorem C06_identity: the model must find the parse tree of this text to be of the plain shape
+                if !tainted { plain_cases.push(format!("plain {}", util::hex(text.as_bytes()))); } }
             Ok(Err(m)) => {
                 rep.case(text.as_bytes(), true);
                 if tainted { rep.known("strlit-trailing-trivia", &m, &text, ""); }
@@ -159,6 +162,9 @@ pub fn main(args: &[String]) {
             }
         }
     }
+    plain_cases.truncate(if thorough { 20000 } else { 3000 });
+    std::fs::write(format!("{}.plain.cases", out), plain_cases.join("\n") + "\n").unwrap();
+    std::fs::write(format!("{}.plain.impl", out), plain_cases.iter().map(|_| "plain").collect::<Vec<_>>().join("\n") + "\n").unwrap();
     rep.write(out);
     println!("ok");
 }
